@@ -2051,8 +2051,8 @@ def rule_X1(ctx):
             and evs[2] == ("items", f"{bi.name}(self.items)") and len([e_ for e_ in evs if e_[0] == "items"]) == 1
     ctx.ob("X1", tr, "the tree starts with the header and renders all items", ok and n_p >= 1, "", inst="tree-start")
     gi = ctx.fn("smpl_extract/elements.py", "LeafElement.get_info", "X1")
-    t = full(gi)
-    ok = "header = (self.safe_name, ' ' * 2, self.type_name)" in t and "items = self.itemize()" in t and "InfoTree(header, items)" in t
+    from .util import return_keys as _rkx
+    ok = _rkx(ctx, gi, "X1") == {"InfoTree(tuple(self.safe_name,2*' ',self.type_name),self.itemize())"}
     ctx.ob("X1", gi, "a leaf's info = header (safe name, type) + its itemised fields", ok, "", inst="leaf-info")
     ig = ctx.fn("smpl_extract/util/dataclass.py", "itemize_general", "X1")
     pv = ctx.fn("smpl_extract/util/dataclass.py", "process_value", "X1")
